@@ -420,7 +420,7 @@ pub fn structural(orig: &[u8], rng: &mut Rng) -> Mutation {
 /// Fault kind n — nesting bomb (checksum valid): one constant is re-typed as a set (or table) and
 /// pointed at a run of N "matrix of" / "set of" kind tags appended to the constant blob, so that the
 /// kind decoder nests once per byte. The loader and the decoder must answer (an error is fine) on
-/// the stack a real caller has; the trial therefore runs on a thread with an 8 MiB stack.
+/// the stack a real caller has; the trial therefore runs on a thread with a 2 MiB stack (std's default for spawned threads).
 pub fn nesting_bomb(orig: &[u8], rng: &mut Rng) -> Mutation {
   let fl = orig.len();
   let tbl = header_field(orig, "const_tbl_off") as usize;
@@ -436,10 +436,12 @@ pub fn nesting_bomb(orig: &[u8], rng: &mut Rng) -> Mutation {
   let mut p = toff + 4;
   for _ in 0..type_id { if p + 12 > fl { break; } let bl = rd(orig, p + 8, 4) as usize; p += 12 + bl; }
   if p + 12 > fl { return structural_fallback(orig, rng); }
-  let n = *rng.pick(&[2_000usize, 20_000, 120_000]);
+  let n0 = *rng.pick(&[2_000usize, 20_000, 120_000]);
   // one level per byte (matrix of / set of), or nine bytes per level (table with one column named "" of kind ...)
   let unit: Vec<u8> = match rng.below(4) { 0 | 1 => vec![21u8], 2 => vec![29u8], _ => vec![26u8, 1, 0, 0, 0, 0, 0, 0, 0] };
   let tag_byte = unit[0];
+  // the same number of LEVELS whatever a level costs in bytes (a table level is nine bytes)
+  let n = n0 * unit.len();
   let container = *rng.pick(&[45u64, 45, 42]); // TypeTag::Set, TypeTag::Table
   let ins = blob + blen;
   let pad = (8 - blen % 8) % 8;
@@ -463,11 +465,11 @@ pub fn nesting_bomb(orig: &[u8], rng: &mut Rng) -> Mutation {
   m
 }
 
-/// `feed` on a thread with the stack a real caller has (the main thread's 8 MiB), for the fault
+/// `feed` on a thread with the stack a real caller has (2 MiB: what `std::thread::spawn` gives, e.g. the file watcher's reload thread), for the fault
 /// kinds whose point is recursion depth. A stack overflow kills the worker; the supervisor
 /// attributes the death to the run and confirms it from the black box.
 pub fn feed_on_small_stack(bytes: Vec<u8>, hash_seed: u64) -> FeedResult {
-  let h = std::thread::Builder::new().stack_size(8 << 20).spawn(move || { crate::hashseed::set_thread_hash_seed(hash_seed); feed(&bytes, None) }).expect("spawn small-stack consumer");
+  let h = std::thread::Builder::new().stack_size(2 << 20).spawn(move || { crate::hashseed::set_thread_hash_seed(hash_seed); feed(&bytes, None) }).expect("spawn small-stack consumer");
   match h.join() { Ok(r) => r, Err(p) => FeedResult { fed: Fed::LoaderPanicked(crate::hashseed::panic_message(&p), String::new()), largest_alloc: 0, cpu_ms: 0 } }
 }
 fn structural_fallback(orig: &[u8], rng: &mut Rng) -> Mutation {
